@@ -1,5 +1,5 @@
 (* C09 — Due jobs run in chronological order (statements only). *)
-From EAS Require Import Base Sched SchedInv SchedApi SchedProps SchedOrder.
+From EAS Require Import Base Sched SchedInv SchedApi SchedProps SchedOrder SchedFresh.
 From Coq Require Import Sorted.
 
 (* the queue from whose head jobs are started is sorted by next-run time in every reachable state and
@@ -37,3 +37,23 @@ Theorem C09_enable_order :
     StronglySorted (fun x y => snd y <= snd x) (cx s') /\ NoDup (map fst (cx s')).
 Proof. exact enable_order. Qed.
 Print Assumptions C09_enable_order.
+
+(* ... and therefore in EVERY reachable state: whatever history of creations, control operations, clock
+   advances and wake-ups came before ([cx s = []] is proved for every operation boundary: reachable_cx_fresh) *)
+Theorem C09_wake_order_in_every_history :
+  forall E, (forall j k t, exists v, prod E j k t = Ok v /\ t < v) ->
+  forall fuel hs t0 en ops s rs s',
+    run E fuel hs (init t0 en) ops = (s, rs) -> ~ In NoFuel rs ->
+    step_op E fuel hs s OWake = (s', Done) ->
+    StronglySorted (fun x y => snd y <= snd x) (cx s') /\ NoDup (map fst (cx s')).
+Proof. exact wake_order_reachable. Qed.
+Print Assumptions C09_wake_order_in_every_history.
+
+Theorem C09_enable_order_in_every_history :
+  forall E, (forall j k t, exists v, prod E j k t = Ok v /\ t < v) ->
+  forall fuel hs t0 en ops s rs s',
+    run E fuel hs (init t0 en) ops = (s, rs) -> ~ In NoFuel rs -> enabled s = false ->
+    step_op E fuel hs s (OEnable true) = (s', Done) ->
+    StronglySorted (fun x y => snd y <= snd x) (cx s') /\ NoDup (map fst (cx s')).
+Proof. exact enable_order_reachable. Qed.
+Print Assumptions C09_enable_order_in_every_history.
